@@ -1,4 +1,1151 @@
-//! `mwverif reader ...` -- see DESIGN.md; implemented by the check of the corresponding property.
-pub fn main(_args: &[String]) -> Result<(), String> {
-    Err("reader: not implemented yet".into())
+//! `mwverif reader ...` -- the implementation side of property C11 (reader discipline).
+//!
+//! `reader replay in=<ndjson> out=<json> seed=<n> rend=<n>`   (specification -> implementation)
+//!     every line of `in` is a case printed by Gen_Reader.tla: a token-class sequence with the
+//!     outcome Reader.tla requires.  Each sequence is rendered as `rend` concrete texts (different
+//!     spellings of every class, different separators) and marwood's `parse_text` is compared with
+//!     the required outcome, first datum and datum-by-datum; texts whose data can all be evaluated
+//!     are also run through the `eval_text` loop the REPL uses.  A failing rendering is reduced to
+//!     the fewest non-canonical choices before it is reported.
+//!
+//! `reader spans seed=<n> count=<n> out=<ndjson>`            (implementation -> specification)
+//!     seeded random Unicode strings, token soups and mutations of valid programs; records the
+//!     text (code points + UTF-8 widths), what `lex::scan` returned (spans + token types, or the
+//!     error) and what `parse_text` returned, for Trace_Reader.tla.
+use crate::gen_cmd::{get, kv};
+use crate::rng::Rng;
+use marwood::cell::Cell;
+use marwood::lex::{self, TokenType};
+use marwood::parse;
+use marwood::vm::Vm;
+use serde_json::{json, Value};
+use std::collections::{BTreeMap, HashSet};
+use std::io::{BufRead, Write};
+use std::panic::{catch_unwind, AssertUnwindSafe};
+use std::sync::atomic::{AtomicU64, Ordering};
+use std::sync::{Arc, Mutex};
+
+pub fn main(args: &[String]) -> Result<(), String> {
+    if args.is_empty() {
+        return Err("reader replay|spans key=value...".into());
+    }
+    match args[0].as_str() {
+        "replay" => replay(&args[1..]),
+        "spans" => spans(&args[1..]),
+        "one" => one(&args[1..]),
+        other => Err(format!("reader: unknown mode {}", other)),
+    }
+}
+
+// ------------------------------------------------------------------------------------------------
+// watchdog: a hang of marwood is data, not a tool failure
+
+struct Watch {
+    progress: Arc<AtomicU64>,
+    current: Arc<Mutex<String>>,
+}
+
+impl Watch {
+    fn start() -> Watch {
+        let progress = Arc::new(AtomicU64::new(0));
+        let current = Arc::new(Mutex::new(String::new()));
+        let (p, c) = (progress.clone(), current.clone());
+        std::thread::spawn(move || {
+            let mut last = u64::MAX;
+            let mut still = 0;
+            loop {
+                std::thread::sleep(std::time::Duration::from_secs(1));
+                let now = p.load(Ordering::Relaxed);
+                if now == last {
+                    still += 1;
+                    if still >= 30 {
+                        let text = c.lock().map(|s| s.clone()).unwrap_or_default();
+                        println!("{}", json!({"hang": text}));
+                        std::process::exit(3);
+                    }
+                } else {
+                    still = 0;
+                    last = now;
+                }
+            }
+        });
+        Watch { progress, current }
+    }
+    fn at(&self, text: &str) {
+        if let Ok(mut g) = self.current.lock() {
+            g.clear();
+            g.push_str(text);
+        }
+        self.progress.fetch_add(1, Ordering::Relaxed);
+    }
+}
+
+// ------------------------------------------------------------------------------------------------
+// observing parse_text
+
+#[derive(Clone, Debug, PartialEq)]
+enum PO {
+    /// a datum, and the byte offset (in the text handed to parse_text) of the remaining text
+    Ok(Option<usize>),
+    Incomplete,
+    /// (kind, message): kind is "atom" (the content of one token is rejected), "structure", "lex"
+    Error(&'static str, String),
+    Panic(String),
+    /// the remaining text is not a suffix of the input
+    BadRest(String),
+}
+
+impl PO {
+    fn show(&self) -> String {
+        match self {
+            PO::Ok(Some(o)) => format!("a datum, remaining text from byte {}", o),
+            PO::Ok(None) => "a datum, no remaining text".into(),
+            PO::Incomplete => "incomplete".into(),
+            PO::Error(k, m) => format!("error ({}): {}", k, m),
+            PO::Panic(m) => format!("panic: {}", m),
+            PO::BadRest(m) => format!("remaining text is not a suffix of the input: {}", m),
+        }
+    }
+    fn word(&self) -> &'static str {
+        match self {
+            PO::Ok(_) => "ok",
+            PO::Incomplete => "incomplete",
+            PO::Error(k, _) => k,
+            PO::Panic(_) => "panic",
+            PO::BadRest(_) => "badrest",
+        }
+    }
+}
+
+fn panic_msg(p: Box<dyn std::any::Any + Send>) -> String {
+    if let Some(s) = p.downcast_ref::<&str>() {
+        s.to_string()
+    } else if let Some(s) = p.downcast_ref::<String>() {
+        s.clone()
+    } else {
+        "?".into()
+    }
+}
+
+fn classify_parse_error(e: &parse::Error) -> PO {
+    match e {
+        parse::Error::Incomplete => PO::Incomplete,
+        parse::Error::LexError(lex::Error::Incomplete) => PO::Incomplete,
+        parse::Error::LexError(l) => PO::Error("lex", format!("{}", l)),
+        parse::Error::UnknownChar(_) | parse::Error::SyntaxError(_) => PO::Error("atom", format!("{}", e)),
+        other => PO::Error("structure", format!("{}", other)),
+    }
+}
+
+/// Vm::new() reads the prelude with the reader under test: a broken reader is data, not a tool failure
+fn new_vm() -> Option<Vm> {
+    catch_unwind(Vm::new).ok()
+}
+
+fn suffix_offset(text: &str, rest: &str) -> Result<usize, String> {
+    let base = text.as_ptr() as usize;
+    let p = rest.as_ptr() as usize;
+    if p < base || p > base + text.len() || p - base + rest.len() != text.len() {
+        return Err(format!("{:?}", rest));
+    }
+    Ok(p - base)
+}
+
+fn run_parse(text: &str) -> (PO, Option<Cell>) {
+    let r = catch_unwind(AssertUnwindSafe(|| parse::parse_text(text)));
+    match r {
+        Err(p) => (PO::Panic(panic_msg(p)), None),
+        Ok(Err(e)) => (classify_parse_error(&e), None),
+        Ok(Ok((cell, None))) => (PO::Ok(None), Some(cell)),
+        Ok(Ok((cell, Some(rest)))) => match suffix_offset(text, rest) {
+            Ok(o) => (PO::Ok(Some(o)), Some(cell)),
+            Err(m) => (PO::BadRest(m), Some(cell)),
+        },
+    }
+}
+
+// ------------------------------------------------------------------------------------------------
+// spellings
+
+#[derive(Clone, Debug)]
+struct Tok {
+    s: String,
+    cat: &'static str,
+}
+
+/// (spelling, category, evaluates to itself)
+const ATOMS: &[(&str, &str, bool)] = &[
+    ("a", "symbol", false),
+    ("1", "number", true),
+    ("foo-bar", "symbol", false),
+    ("x1", "symbol", false),
+    ("set!", "symbol", false),
+    ("a.b", "symbol", false),
+    ("<=?", "symbol", false),
+    ("!$%&*/:<=>?^_~", "symbol", false),
+    ("list->vector", "symbol", false),
+    ("\u{3bb}", "symbol-unicode", false),
+    ("na\u{ef}ve", "symbol-unicode", false),
+    ("\u{65e5}\u{672c}", "symbol-unicode", false),
+    ("+", "peculiar", false),
+    ("-", "peculiar", false),
+    ("...", "peculiar", false),
+    ("..", "peculiar", false),
+    ("->x", "peculiar", false),
+    ("+x", "peculiar", false),
+    ("-x", "peculiar", false),
+    (".a", "peculiar", false),
+    ("0", "number", true),
+    ("42", "number", true),
+    ("-7", "number", true),
+    ("+5", "number", true),
+    ("1.5", "number", true),
+    (".5", "number", true),
+    ("-.5", "number", true),
+    ("1/2", "number", true),
+    ("123456789012345678901234567890", "number", true),
+    ("#x1F", "number-prefixed", true),
+    ("#b101", "number-prefixed", true),
+    ("#o17", "number-prefixed", true),
+    ("#d9", "number-prefixed", true),
+    ("#e1.5", "number-prefixed", true),
+    ("#i3", "number-prefixed", true),
+    ("#e#x10", "number-prefixed", true),
+    ("#x#e10", "number-prefixed", true),
+    ("\"s\"", "string", true),
+    ("\"\"", "string", true),
+    ("\"a b\"", "string", true),
+    ("\"a\\\"b\"", "string", true),
+    ("\"\\\\\"", "string", true),
+    ("\"(x\"", "string", true),
+    ("\")\"", "string", true),
+    ("\"a;b\"", "string", true),
+    ("\"; not a comment\"", "string", true),
+    ("\"x\\x41;y\"", "string", true),
+    ("\"\\n\\t\"", "string", true),
+    ("\"\u{e9}\u{1f436}\"", "string", true),
+    ("\"a\nb\"", "string", true),
+    ("\"#(\"", "string", true),
+    ("\"'\"", "string", true),
+    ("#\\a", "char", true),
+    ("#\\space", "char", true),
+    ("#\\newline", "char", true),
+    ("#\\tab", "char", true),
+    ("#\\(", "char", true),
+    ("#\\)", "char", true),
+    ("#\\;", "char", true),
+    ("#\\\"", "char", true),
+    ("#\\'", "char", true),
+    ("#\\#", "char", true),
+    ("#\\.", "char", true),
+    ("#\\ ", "char", true),
+    ("#\\x", "char", true),
+    ("#\\x41", "char", true),
+    ("#\\1", "char", true),
+    ("#\\\u{3bb}", "char", true),
+    ("#\\\u{1f436}", "char", true),
+    ("#t", "bool", true),
+    ("#f", "bool", true),
+];
+
+const PREFIXES: &[(&str, &str)] = &[("'", "quote"), ("`", "quasiquote"), (",", "unquote")];
+
+/// (text, category); "" is only used where adjacency is lexically unambiguous
+const SEPS: &[(&str, &str)] = &[
+    (" ", "space"),
+    ("", "none"),
+    ("\n", "newline"),
+    ("\t", "tab"),
+    ("   ", "spaces"),
+    ("\r\n", "crlf"),
+    (" \n ", "space-newline"),
+    (" ; c\n", "comment"),
+    ("\n;\n", "empty-comment"),
+    (" ;; (unbalanced \" 'x [ #\\\n", "comment-with-brackets"),
+    (";c\n", "flush-comment"),
+    ("; note\n", "flush-comment"),
+    (";; (\n", "flush-comment"),
+];
+const LEADS: &[(&str, &str)] = &[
+    ("", "none"),
+    (" ", "space"),
+    ("\n", "newline"),
+    ("; lead (\n", "comment"),
+    ("\t ;x\n  ", "comment"),
+];
+const TRAILS: &[(&str, &str)] = &[
+    ("", "none"),
+    (" ", "space"),
+    ("\n", "newline"),
+    ("\n\n  ", "newlines"),
+    (" ; end )", "comment-no-newline"),
+    (" ; end\n", "comment"),
+    (";end", "flush-comment"),
+];
+
+#[derive(Clone, Debug)]
+struct Case {
+    t: Vec<String>,
+    c: String,
+    k: usize,
+    ks: Vec<usize>,
+    fin: String,
+}
+
+impl Case {
+    fn from_json(v: &Value) -> Result<Case, String> {
+        let t = v["t"].as_array().ok_or("case without t")?.iter().map(|x| x.as_str().unwrap_or("").to_string()).collect();
+        let ks = v["ks"].as_array().ok_or("case without ks")?.iter().map(|x| x.as_u64().unwrap_or(0) as usize).collect();
+        Ok(Case {
+            t,
+            c: v["c"].as_str().ok_or("case without c")?.to_string(),
+            k: v["k"].as_u64().ok_or("case without k")? as usize,
+            ks,
+            fin: v["fin"].as_str().ok_or("case without fin")?.to_string(),
+        })
+    }
+    fn classes(&self) -> String {
+        if self.t.is_empty() {
+            "(empty)".into()
+        } else {
+            self.t.join(" ")
+        }
+    }
+    /// indices (0-based) of the tokens that begin a top-level datum
+    fn datum_starts(&self) -> Vec<usize> {
+        let mut v = vec![];
+        let mut p = 0;
+        for &e in &self.ks {
+            v.push(p);
+            p = e;
+        }
+        v
+    }
+    /// every datum of the text can be evaluated: quoted, or an atom (spelled self-evaluating)
+    fn evaluable(&self) -> bool {
+        self.fin == "End" && !self.ks.is_empty() && self.datum_starts().iter().all(|&i| self.t[i] == "PFX" || self.t[i] == "ATOM")
+    }
+}
+
+/// One rendering: a spelling for every token, a separator for every gap (lead, n-1 gaps, trail)
+#[derive(Clone, Debug)]
+struct Plan {
+    toks: Vec<Tok>,
+    seps: Vec<Tok>,
+    curly: bool,
+}
+
+fn canon_tok(class: &str, top_eval: bool) -> Tok {
+    let (s, cat) = match class {
+        "LP" => ("(", "round"),
+        "RP" => (")", "round"),
+        "LB" => ("[", "alt"),
+        "RB" => ("]", "alt"),
+        "VEC" => ("#(", "vector"),
+        "PFX" => ("'", "quote"),
+        "DOT" => (".", "dot"),
+        _ => {
+            if top_eval {
+                ("1", "number")
+            } else {
+                ("a", "symbol")
+            }
+        }
+    };
+    Tok { s: s.into(), cat }
+}
+
+fn spelled(class: &str, tok: &Tok, curly: bool) -> String {
+    match (class, curly) {
+        ("LB", true) => "{".into(),
+        ("RB", true) => "}".into(),
+        _ => tok.s.clone(),
+    }
+}
+
+fn self_terminating(class: &str, tok: &Tok) -> bool {
+    matches!(class, "LP" | "RP" | "LB" | "RB" | "VEC" | "PFX") || tok.cat == "string"
+}
+
+fn starts_with_delimiter(class: &str) -> bool {
+    matches!(class, "LP" | "RP" | "LB" | "RB")
+}
+
+fn starts_with_dquote(tok: &Tok) -> bool {
+    tok.s.starts_with('"')
+}
+
+/// may tokens i-1 and i be adjacent without anything between them (R7RS 7.1.1: identifiers,
+/// numbers, characters, booleans and `.` must be followed by a delimiter; delimiters are white
+/// space, ( ) " ; and, with marwood's alternative brackets, [ ] { })
+fn adjacency_ok(case: &Case, plan: &Plan, gap: usize) -> bool {
+    let n = case.t.len();
+    if gap == 0 || gap >= n {
+        return true;
+    }
+    let (l, r) = (gap - 1, gap);
+    self_terminating(&case.t[l], &plan.toks[l]) || starts_with_delimiter(&case.t[r]) || starts_with_dquote(&plan.toks[r])
+}
+
+fn plan_valid(case: &Case, plan: &Plan) -> bool {
+    (0..plan.seps.len()).all(|g| plan.seps[g].s != "" || adjacency_ok(case, plan, g))
+}
+
+fn canonical_plan(case: &Case, eval_mode: bool) -> Plan {
+    let n = case.t.len();
+    let tops: HashSet<usize> = if eval_mode { case.datum_starts().into_iter().collect() } else { HashSet::new() };
+    let toks = (0..n).map(|i| canon_tok(&case.t[i], tops.contains(&i))).collect();
+    let mut seps = vec![Tok { s: " ".into(), cat: "space" }; n + 1];
+    seps[0] = Tok { s: "".into(), cat: "none" };
+    seps[n] = Tok { s: "".into(), cat: "none" };
+    Plan { toks, seps, curly: false }
+}
+
+fn render(case: &Case, plan: &Plan) -> (String, Vec<usize>) {
+    let mut text = String::new();
+    let mut starts = vec![];
+    text.push_str(&plan.seps[0].s);
+    for i in 0..case.t.len() {
+        starts.push(text.len());
+        text.push_str(&spelled(&case.t[i], &plan.toks[i], plan.curly));
+        text.push_str(&plan.seps[i + 1].s);
+    }
+    (text, starts)
+}
+
+fn pick_tok(rng: &mut Rng, class: &str, top_eval: bool, diversity: u32) -> Tok {
+    if !rng.chance(diversity, 100) {
+        return canon_tok(class, top_eval);
+    }
+    match class {
+        "PFX" => {
+            if top_eval {
+                canon_tok(class, top_eval)
+            } else {
+                let (s, cat) = *rng.pick(PREFIXES);
+                Tok { s: s.into(), cat }
+            }
+        }
+        "ATOM" => {
+            for _ in 0..64 {
+                let i = rng.below(ATOMS.len());
+                let (s, cat, _) = ATOMS[i];
+                if !top_eval || SELFEVAL_OK.get().map(|v| v[i]).unwrap_or(false) {
+                    return Tok { s: s.into(), cat };
+                }
+            }
+            canon_tok(class, top_eval)
+        }
+        _ => canon_tok(class, top_eval),
+    }
+}
+
+/// Rendering number r of a case.  r = 0: canonical; r = 1: as tight as the lexical rules allow;
+/// r % 4 == 3: comments start flush against the preceding token; others: seeded mixtures.
+fn make_plan(case: &Case, r: usize, rng: &mut Rng, eval_mode: bool) -> Plan {
+    let n = case.t.len();
+    let mut plan = canonical_plan(case, eval_mode);
+    if r == 0 {
+        return plan;
+    }
+    let tops: HashSet<usize> = if eval_mode { case.datum_starts().into_iter().collect() } else { HashSet::new() };
+    let diversity = if r == 1 { 50 } else { 85 };
+    for i in 0..n {
+        plan.toks[i] = pick_tok(rng, &case.t[i], tops.contains(&i), diversity);
+    }
+    plan.curly = rng.chance(1, 2);
+    let flush = r % 4 == 3;
+    for g in 0..=n {
+        let (s, cat) = if g == 0 {
+            if r == 1 { LEADS[0] } else { *rng.pick(LEADS) }
+        } else if g == n {
+            if r == 1 {
+                TRAILS[0]
+            } else {
+                loop {
+                    let t = *rng.pick(TRAILS);
+                    if t.1 != "flush-comment" || flush {
+                        break t;
+                    }
+                }
+            }
+        } else if r == 1 {
+            SEPS[1]
+        } else {
+            loop {
+                let t = *rng.pick(SEPS);
+                if t.1 == "flush-comment" && !flush {
+                    continue;
+                }
+                if flush && t.1 != "flush-comment" && rng.chance(1, 2) {
+                    continue;
+                }
+                break t;
+            }
+        };
+        plan.seps[g] = Tok { s: s.into(), cat };
+    }
+    // no separator only where adjacency is unambiguous
+    for g in 1..n {
+        if plan.seps[g].s.is_empty() && !adjacency_ok(case, &plan, g) {
+            plan.seps[g] = Tok { s: " ".into(), cat: "space" };
+        }
+    }
+    plan
+}
+
+// ------------------------------------------------------------------------------------------------
+// judging one rendering
+
+struct Miss {
+    what: String,
+    got: String,
+    expect: String,
+}
+
+/// parse_text against the required outcome: first datum, then datum by datum
+fn check_parse(case: &Case, text: &str, starts: &[usize], calls: &mut u64) -> Option<Miss> {
+    let n = case.t.len();
+    let mut off = 0usize;
+    for (i, &end) in case.ks.iter().enumerate() {
+        let want = if end < n { Some(starts[end]) } else { None };
+        *calls += 1;
+        let (po, _) = run_parse(&text[off..]);
+        let ord = if i == 0 { "first datum".to_string() } else { format!("datum {}", i + 1) };
+        let expect = format!("{}: a datum of tokens {}..{}, {}", ord, if i == 0 { 1 } else { case.ks[i - 1] + 1 }, end,
+                             match want { Some(w) => format!("remaining text from byte {}", w), None => "no remaining text".into() });
+        let miss = |what: &str, po: &PO| Some(Miss { what: what.to_string(), got: po.show(), expect: expect.clone() });
+        match &po {
+            PO::Ok(r) => {
+                let got = r.map(|o| o + off);
+                if got != want {
+                    return match (got, want) {
+                        (Some(_), None) => miss("remaining text reported although no token is left", &po),
+                        (None, Some(_)) => miss("no remaining text reported although tokens are left", &po),
+                        _ => miss("remaining text does not begin at the token after the datum", &PO::Ok(got)),
+                    };
+                }
+            }
+            PO::Incomplete => return miss("complete datum reported incomplete", &po),
+            PO::Error(..) => return miss("complete datum reported as an error", &po),
+            PO::Panic(_) => return miss("panic", &po),
+            PO::BadRest(_) => return miss("remaining text is not a suffix of the input", &po),
+        }
+        match want {
+            Some(w) => off = w,
+            None => return None,
+        }
+    }
+    if case.fin == "End" {
+        return None;
+    }
+    *calls += 1;
+    let (po, _) = run_parse(&text[off..]);
+    let where_ = if case.ks.is_empty() { "".to_string() } else { format!(" (after {} complete data)", case.ks.len()) };
+    let mk = |what: &str, expect: &str| Some(Miss { what: what.to_string(), got: po.show(), expect: format!("{}{}", expect, where_) });
+    match (case.fin.as_str(), &po) {
+        (_, PO::Panic(_)) => mk("panic", "no panic"),
+        (_, PO::BadRest(_)) => mk("remaining text is not a suffix of the input", "a suffix"),
+        ("Incomplete", PO::Incomplete) => None,
+        ("Incomplete", PO::Ok(_)) => mk("incomplete datum accepted as a datum", "incomplete"),
+        ("Incomplete", PO::Error(..)) => mk("text cut inside a well-formed datum reported as an error, not as incomplete", "incomplete"),
+        ("Error", PO::Error(..)) => None,
+        ("Error", PO::Incomplete) => mk("malformed text reported as incomplete", "an error other than incomplete"),
+        ("Error", PO::Ok(_)) => mk("malformed text accepted as a datum", "an error other than incomplete"),
+        _ => None, // Unspecified: anything that terminates without a panic
+    }
+}
+
+/// the loop of the REPL: eval_text, continue with the remaining text
+fn check_eval(case: &Case, text: &str, starts: &[usize], vm: &mut Option<Vm>, calls: &mut u64) -> Option<Miss> {
+    let n = case.t.len();
+    let mut off = 0usize;
+    let mut visited = 0usize;
+    let total = case.ks.len();
+    loop {
+        if visited > total {
+            return Some(Miss { what: "eval loop visits more data than the text holds".into(), got: format!("{} iterations", visited), expect: format!("{} data", total) });
+        }
+        if visited == total {
+            return None;
+        }
+        let end = case.ks[visited];
+        let want = if end < n { Some(starts[end]) } else { None };
+        let cur = &text[off..];
+        // the datum this iteration has to evaluate
+        let expected_val = match run_parse(cur) {
+            // a top-level datum of an evaluable text is an atom or an abbreviation (quote x)
+            (PO::Ok(_), Some(cell)) => {
+                if cell.is_pair() {
+                    cell.cadr().cloned().unwrap_or(Cell::Nil)
+                } else {
+                    cell
+                }
+            }
+            _ => return None, // already reported by check_parse
+        };
+        if vm.is_none() {
+            *vm = new_vm();
+        }
+        if vm.is_none() {
+            return Some(Miss { what: "eval loop: Vm::new() panics (the prelude cannot be read)".into(), got: "panic".into(), expect: "a Vm".into() });
+        }
+        *calls += 1;
+        let r = {
+            let m = vm.as_mut().unwrap();
+            catch_unwind(AssertUnwindSafe(|| m.eval_text(cur).map(|(c, r)| (c, r.map(|r| suffix_offset(cur, r))))))
+        };
+        let expect = format!("iteration {}: value {:#}, {}", visited + 1, expected_val,
+                             match want { Some(w) => format!("remaining text from byte {}", w), None => "no remaining text".into() });
+        let miss = |what: &str, got: String| Some(Miss { what: what.to_string(), got, expect: expect.clone() });
+        match r {
+            Err(p) => {
+                *vm = None;
+                return miss("eval loop: panic", panic_msg(p));
+            }
+            Ok(Err(e)) => return miss("eval loop: evaluation of a quoted or self-evaluating datum failed", format!("{}", e)),
+            Ok(Ok((val, rest))) => {
+                let got = match rest {
+                    None => None,
+                    Some(Ok(o)) => Some(o + off),
+                    Some(Err(m)) => return miss("eval loop: remaining text is not a suffix of the input", m),
+                };
+                if format!("{:#}", val) != format!("{:#}", expected_val) {
+                    return miss("eval loop: iteration evaluated a different datum", format!("value {:#}", val));
+                }
+                if got != want {
+                    return miss("eval loop: wrong remaining text", format!("{:?}", got));
+                }
+                visited += 1;
+                match want {
+                    Some(w) => off = w,
+                    None => {
+                        return if visited == total { None } else { miss("eval loop: stops before the last datum", format!("{} of {}", visited, total)) };
+                    }
+                }
+            }
+        }
+    }
+}
+
+fn judge(case: &Case, plan: &Plan, eval_mode: bool, vm: &mut Option<Vm>, calls: &mut (u64, u64)) -> Option<Miss> {
+    let (text, starts) = render(case, plan);
+    if let Some(m) = check_parse(case, &text, &starts, &mut calls.0) {
+        return Some(m);
+    }
+    if eval_mode {
+        return check_eval(case, &text, &starts, vm, &mut calls.1);
+    }
+    None
+}
+
+/// Reduce a failing plan: revert every choice to the canonical one as long as the same failure remains.
+fn minimise(case: &Case, plan: &Plan, what: &str, eval_mode: bool, vm: &mut Option<Vm>) -> Plan {
+    let canon = canonical_plan(case, eval_mode);
+    let mut cur = plan.clone();
+    let mut scratch = (0u64, 0u64);
+    let mut still_fails = |p: &Plan, vm: &mut Option<Vm>| -> bool {
+        plan_valid(case, p) && matches!(judge(case, p, eval_mode, vm, &mut scratch), Some(m) if m.what == what)
+    };
+    let mut changed = true;
+    while changed {
+        changed = false;
+        if cur.curly {
+            let mut p = cur.clone();
+            p.curly = false;
+            if still_fails(&p, vm) {
+                cur = p;
+                changed = true;
+            }
+        }
+        for g in 0..cur.seps.len() {
+            if cur.seps[g].s != canon.seps[g].s {
+                let mut p = cur.clone();
+                p.seps[g] = canon.seps[g].clone();
+                if still_fails(&p, vm) {
+                    cur = p;
+                    changed = true;
+                }
+            }
+        }
+        for i in 0..cur.toks.len() {
+            if cur.toks[i].s != canon.toks[i].s {
+                let mut p = cur.clone();
+                p.toks[i] = canon.toks[i].clone();
+                if still_fails(&p, vm) {
+                    cur = p;
+                    changed = true;
+                }
+            }
+        }
+    }
+    cur
+}
+
+/// the non-canonical choices of a plan
+fn features(case: &Case, plan: &Plan, eval_mode: bool) -> Vec<String> {
+    let canon = canonical_plan(case, eval_mode);
+    let n = case.t.len();
+    let mut f = vec![];
+    if plan.curly && case.t.iter().any(|c| c == "LB" || c == "RB") {
+        f.push("brackets:curly".to_string());
+    }
+    for i in 0..n {
+        if plan.toks[i].s != canon.toks[i].s {
+            f.push(format!("tok:{}", plan.toks[i].cat));
+        }
+    }
+    for g in 0..=n {
+        if plan.seps[g].s != canon.seps[g].s {
+            let pos = if g == 0 { "lead" } else if g == n { "trail" } else { "sep" };
+            if plan.seps[g].cat == "flush-comment" && g > 0 {
+                f.push(format!("{}:flush-comment after {}", pos, plan.toks[g - 1].cat));
+            } else if plan.seps[g].cat == "none" && g > 0 && g < n {
+                f.push(format!("sep:none between {} and {}", plan.toks[g - 1].cat, plan.toks[g].cat));
+            } else {
+                f.push(format!("{}:{}", pos, plan.seps[g].cat));
+            }
+        }
+    }
+    f.sort();
+    f.dedup();
+    f
+}
+
+/// Which atoms marked self-evaluating really evaluate in this marwood (only those are placed at the
+/// top level of texts for the eval_text loop).  Nothing else is filtered: an atom of the table
+/// that marwood cannot read shows up as a mismatch of its renderings, never as a tool error.
+static SELFEVAL_OK: std::sync::OnceLock<Vec<bool>> = std::sync::OnceLock::new();
+
+fn self_check() {
+    let mut vm = new_vm();
+    let mut ok = vec![];
+    for (s, _cat, selfeval) in ATOMS {
+        let mut good = false;
+        if *selfeval {
+            if vm.is_none() {
+                vm = new_vm();
+            }
+            if let Some(m) = vm.as_mut() {
+                match catch_unwind(AssertUnwindSafe(|| m.eval_text(s).map(|_| ()))) {
+                    Ok(Ok(())) => good = true,
+                    Ok(Err(_)) => {}
+                    Err(_) => vm = None,
+                }
+            }
+        }
+        ok.push(good);
+    }
+    let _ = SELFEVAL_OK.set(ok);
+}
+
+fn hash64(s: &str) -> u64 {
+    let mut h: u64 = 0xcbf29ce484222325;
+    for b in s.bytes() {
+        h ^= b as u64;
+        h = h.wrapping_mul(0x100000001b3);
+    }
+    h
+}
+
+fn replay(args: &[String]) -> Result<(), String> {
+    let m = kv(args);
+    let input = m.get("in").cloned().ok_or("in=<file> required")?;
+    let out = m.get("out").cloned().ok_or("out=<file> required")?;
+    let seed: u64 = get(&m, "seed", 0);
+    let rend: usize = get(&m, "rend", 8);
+    self_check();
+    let watch = Watch::start();
+    let f = std::fs::File::open(&input).map_err(|e| format!("{}: {}", input, e))?;
+    let mut vm: Option<Vm> = None;
+    let mut nseq = 0u64;
+    let mut nrend = 0u64;
+    let mut calls = (0u64, 0u64);
+    let mut eval_texts = 0u64;
+    let mut loop_texts = 0u64;
+    let mut by_class: BTreeMap<String, u64> = BTreeMap::new();
+    let mut distinct: HashSet<u64> = HashSet::new();
+    let mut nontrivial: HashSet<u64> = HashSet::new();
+    let mut groups: BTreeMap<String, Value> = BTreeMap::new();
+    let mut total_miss = 0u64;
+    let mut samples: Vec<Value> = vec![];
+    let mut maxlen = 0usize;
+    for (lineno, line) in std::io::BufReader::new(f).lines().enumerate() {
+        let line = line.map_err(|e| e.to_string())?;
+        if line.trim().is_empty() {
+            continue;
+        }
+        let v: Value = serde_json::from_str(&line).map_err(|e| format!("{}:{}: {}", input, lineno + 1, e))?;
+        let case = Case::from_json(&v)?;
+        nseq += 1;
+        maxlen = maxlen.max(case.t.len());
+        *by_class.entry(case.c.clone()).or_insert(0) += 1;
+        let key = hash64(&case.classes());
+        let evaluable = case.evaluable();
+        for r in 0..rend {
+            // every other rendering of an evaluable text is built for the eval_text loop
+            let eval_mode = evaluable && r % 2 == 0;
+            let mut rng = Rng::new(seed.wrapping_mul(0x9E37).wrapping_add(key).wrapping_add((r as u64) << 40));
+            let plan = make_plan(&case, r, &mut rng, eval_mode);
+            let (text, _) = render(&case, &plan);
+            watch.at(&text);
+            nrend += 1;
+            let h = hash64(&text);
+            distinct.insert(h);
+            if case.t.len() >= 2 {
+                nontrivial.insert(h);
+            }
+            if case.ks.len() > 1 || (case.ks.len() == 1 && case.fin != "End") {
+                loop_texts += 1;
+            }
+            if eval_mode {
+                eval_texts += 1;
+            }
+            if samples.len() < 6 && nseq % 499 == 3 && r == rend - 1 {
+                samples.push(json!({"classes": case.classes(), "text": text, "required": {"c": case.c, "k": case.k, "ks": case.ks, "fin": case.fin}}));
+            }
+            if let Some(miss) = judge(&case, &plan, eval_mode, &mut vm, &mut calls) {
+                total_miss += 1;
+                let small = minimise(&case, &plan, &miss.what, eval_mode, &mut vm);
+                let (mtext, _) = render(&case, &small);
+                let mm = judge(&case, &small, eval_mode, &mut vm, &mut (0, 0)).unwrap_or(miss);
+                let feats = features(&case, &small, eval_mode);
+                let gkey = format!("{} [{}]", mm.what, feats.join(", "));
+                let entry = groups.entry(gkey.clone()).or_insert_with(|| json!({"what": mm.what, "features": feats, "count": 0, "classes": case.classes(),
+                    "text": mtext, "required": mm.expect, "actual": mm.got, "original_text": text, "spec": {"c": case.c, "k": case.k, "ks": case.ks, "fin": case.fin}}));
+                entry["count"] = json!(entry["count"].as_u64().unwrap_or(0) + 1);
+                // keep the shortest witness of the group
+                if mtext.len() < entry["text"].as_str().map(|s| s.len()).unwrap_or(usize::MAX) {
+                    entry["classes"] = json!(case.classes());
+                    entry["text"] = json!(mtext);
+                    entry["required"] = json!(mm.expect);
+                    entry["actual"] = json!(mm.got);
+                    entry["original_text"] = json!(text);
+                    entry["spec"] = json!({"c": case.c, "k": case.k, "ks": case.ks, "fin": case.fin});
+                }
+            }
+        }
+    }
+    let summary = json!({
+        "sequences": nseq, "max_length": maxlen, "renderings": nrend, "renderings_per_sequence": rend,
+        "parse_text_calls": calls.0, "eval_text_calls": calls.1, "eval_loop_texts": eval_texts, "multi_step_texts": loop_texts,
+        "distinct_texts": distinct.len(), "distinct_texts_of_2_or_more_tokens": nontrivial.len(),
+        "by_required_outcome": by_class, "mismatching_renderings": total_miss,
+        "groups": groups.values().cloned().collect::<Vec<Value>>(), "samples": samples,
+        "atom_spellings": ATOMS.len(), "separator_spellings": SEPS.len(),
+    });
+    std::fs::write(&out, serde_json::to_string(&summary).unwrap()).map_err(|e| e.to_string())?;
+    eprintln!("reader replay: {} sequences, {} renderings, {} mismatching renderings in {} groups", nseq, nrend, total_miss, groups.len());
+    Ok(())
+}
+
+/// `reader one <text>`: show what marwood does with one text (for replaying a finding by hand)
+fn one(args: &[String]) -> Result<(), String> {
+    let text = args.first().cloned().unwrap_or_default();
+    println!("text   {:?}", text);
+    match catch_unwind(AssertUnwindSafe(|| lex::scan(&text))) {
+        Ok(Ok(toks)) => {
+            for t in &toks {
+                println!("token  {:?} {:?} {:?}", t.span, t.token_type, text.get(t.span.0..t.span.1));
+            }
+        }
+        Ok(Err(e)) => println!("scan   error: {}", e),
+        Err(p) => println!("scan   panic: {}", panic_msg(p)),
+    }
+    let mut cur: &str = &text;
+    for _ in 0..64 {
+        let (po, cell) = run_parse(cur);
+        println!("parse  {:?} => {}{}", cur, po.show(), cell.map(|c| format!("   [{:#}]", c)).unwrap_or_default());
+        match po {
+            PO::Ok(Some(o)) => cur = &cur[o..],
+            _ => break,
+        }
+    }
+    Ok(())
+}
+
+// ------------------------------------------------------------------------------------------------
+// spans: implementation -> specification
+
+const WHITE_SPACE: &[u32] = &[
+    9, 10, 11, 12, 13, 32, 133, 160, 5760, 8192, 8193, 8194, 8195, 8196, 8197, 8198, 8199, 8200, 8201, 8202, 8232, 8233, 8239, 8287, 12288,
+];
+const LEXICAL: &str = "()[]{}'`,.#\"\\;|@+-/*<=>!?:$%&^_~";
+const WORDY: &str = "abefinotxdXF0123456789";
+const MULTI: &[u32] = &[0xe9, 0x3bb, 0xdf, 0x20ac, 0x4e2d, 0x1f436, 0x10000, 0x10ffff, 0xfeff, 0x200b, 0x180e, 0x301, 0xff, 0x100, 0x7ff, 0x800, 0xffff, 0xd7ff, 0xe000, 0x2060, 0xa0, 0x85];
+const JUNK: &[&str] = &[
+    "#", "#\\", "\"abc", "#x", "#e", "#q", "|", "@", ",@", "#;", "#|", "|#", "\\", "#true", "#false", "#\\spac", "#\\xZZ", "\"\\xZZ;\"", "\"\\x41\"",
+    "1e+3", "+inf.0", "....", ".5.", "1.2.3", "a;b", "#\\x110000", "#\\xD800", "#u8(", "#0=", "#0#", "#\\", "\"\\", "\"\\\"", "#(", "#xZZ", "#x(", "#b2", "#e#", "#\\x;",
+    "\u{2003}", "\u{3000}a", "a\u{a0}b", "\u{85}", "#\\\u{e9}x", "#t\u{e9}", "#\u{e9}", "\"\u{1f436}", ".\u{e9}", "1\u{e9}", "+\u{3bb}", "-.", "+.", ".;", "a;",
+];
+const SOUP_SEPS: &[&str] = &["", "", " ", " ", " ", "\n", "\t", "\r", "\r\n", ";c\n", " ;x\n", " ; \u{e9}\u{1f436} (\n", "\u{a0}", "\u{2003}", "\u{85}", "\u{3000}", "\u{200b}", "\u{feff}", "\u{2028}", "\u{b}", "\u{c}"];
+const PROGRAMS: &[&str] = &[
+    "(define (fact n) (if (< n 2) 1 (* n (fact (- n 1)))))",
+    "(let loop ((i 0) (acc '())) ; count\n  (if (= i 10) (reverse acc) (loop (+ i 1) (cons i acc))))",
+    "(define-syntax swap! (syntax-rules () ((_ a b) (let ((tmp a)) (set! a b) (set! b tmp)))))",
+    "`(1 ,(+ 1 1) ,x . ,y) '#(1 #(2 \"three\") #\\4) '(a . (b . (c . ())))",
+    "(display \"a \\\"quoted\\\" string; with (parens) and \\\\ and \\x3bb;\") ; trailing comment",
+    "(string-append \"na\u{ef}ve \" \"\u{1f436} \u{65e5}\u{672c}\") (char->integer #\\\u{3bb}) #\\space #\\x41 #\\( #\\)",
+    "[let {[x #x1F] [y #e1.5]} (list x y #t #f -7 +5 .5 1/2 ... + -)]",
+    ";; leading comment\n\n(define v (vector 1 2 3))\n(vector-ref v 0) ; => 1\n(car '((a . b) c))\n",
+    "(lambda args (apply + args)) ((lambda (x . r) r) 1 2 3) (cond ((assv 'b '((a 1) (b 2))) => cadr) (else #f))",
+    "'() '(()) '(() . ()) #() '#(()) ''a `',b ,'`c",
+    "(define \u{3bb}x 'sym\u{e9}) (set! \u{3bb}x \"\\t\\n\") (list 'a.b '->x '<=? '!$%&*/:<=>?^_~)",
+    "(a\n (b ; one\n  (c ;; two (\n   d))\n e)\r\n(f)\t(g)",
+];
+
+fn random_cp(rng: &mut Rng) -> char {
+    loop {
+        let c = match rng.weighted(&[34, 14, 16, 12, 10, 6, 8]) {
+            0 => LEXICAL.as_bytes()[rng.below(LEXICAL.len())] as u32,
+            1 => WORDY.as_bytes()[rng.below(WORDY.len())] as u32,
+            2 => *rng.pick(WHITE_SPACE),
+            3 => *rng.pick(MULTI),
+            4 => rng.range(0x80, 0xffff) as u32,
+            5 => rng.range(0x10000, 0x10ffff) as u32,
+            _ => rng.range(0, 0x7f) as u32,
+        };
+        if let Some(ch) = char::from_u32(c) {
+            return ch;
+        }
+    }
+}
+
+fn random_unicode(rng: &mut Rng) -> String {
+    let n = rng.below(28);
+    (0..n).map(|_| random_cp(rng)).collect()
+}
+
+fn soup_piece(rng: &mut Rng) -> String {
+    match rng.weighted(&[30, 30, 10, 8, 22]) {
+        0 => ["(", ")", "(", ")", "[", "]", "{", "}", "#(", "'", "`", ",", "."][rng.below(13)].to_string(),
+        1 => rng.pick(ATOMS).0.to_string(),
+        2 => rng.pick(JUNK).to_string(),
+        3 => random_cp(rng).to_string(),
+        _ => ["a", "1", "x", "\"s\"", "#t", "b2", "-3", "#\\a"][rng.below(8)].to_string(),
+    }
+}
+
+fn token_soup(rng: &mut Rng) -> String {
+    let n = 1 + rng.below(14);
+    let mut s = String::new();
+    if rng.chance(1, 4) {
+        s.push_str(*rng.pick(SOUP_SEPS));
+    }
+    for _ in 0..n {
+        s.push_str(&soup_piece(rng));
+        // mostly plain separators so that the grammar of longer token sequences is exercised
+        if rng.chance(3, 4) {
+            s.push_str([" ", " ", "\n", "", ""][rng.below(5)]);
+        } else {
+            s.push_str(*rng.pick(SOUP_SEPS));
+        }
+    }
+    s
+}
+
+/// a well-nested text of several data, then cut or disturbed: long token sequences for the grammar clauses
+fn nested(rng: &mut Rng, depth: usize, out: &mut String) {
+    match if depth == 0 { 0 } else { rng.weighted(&[30, 30, 12, 14, 14]) } {
+        0 => out.push_str(["a", "1", "\"s\"", "#\\(", "x", "#t", "..."][rng.below(7)]),
+        1 => {
+            let (o, c) = [("(", ")"), ("(", ")"), ("[", "]"), ("{", "}")][rng.below(4)];
+            out.push_str(o);
+            let n = rng.below(4);
+            for i in 0..n {
+                if i > 0 {
+                    out.push(' ');
+                }
+                nested(rng, depth - 1, out);
+            }
+            if n > 0 && rng.chance(1, 4) {
+                out.push_str(" . ");
+                nested(rng, depth - 1, out);
+            }
+            out.push_str(c);
+        }
+        2 => {
+            out.push_str("#(");
+            let n = rng.below(3);
+            for i in 0..n {
+                if i > 0 {
+                    out.push(' ');
+                }
+                nested(rng, depth - 1, out);
+            }
+            out.push(')');
+        }
+        3 => {
+            out.push_str(["'", "`", ","][rng.below(3)]);
+            nested(rng, depth - 1, out);
+        }
+        _ => {
+            out.push('(');
+            nested(rng, depth - 1, out);
+            out.push(' ');
+            nested(rng, depth - 1, out);
+            out.push(')');
+        }
+    }
+}
+
+fn mutate(rng: &mut Rng, base: &str) -> String {
+    let mut cs: Vec<char> = base.chars().collect();
+    // work on a window so that records stay small
+    if cs.len() > 60 {
+        let a = rng.below(cs.len() - 40);
+        let b = (a + 20 + rng.below(40)).min(cs.len());
+        cs = cs[a..b].to_vec();
+    }
+    let k = rng.below(4);
+    for _ in 0..k {
+        if cs.is_empty() {
+            break;
+        }
+        let i = rng.below(cs.len());
+        match rng.below(7) {
+            0 => {
+                cs.remove(i);
+            }
+            1 => cs.insert(i, random_cp(rng)),
+            2 => cs[i] = random_cp(rng),
+            3 => {
+                let j = (i + 1 + rng.below(6)).min(cs.len());
+                let slice: Vec<char> = cs[i..j].to_vec();
+                for (o, c) in slice.into_iter().enumerate() {
+                    cs.insert(j + o, c);
+                }
+            }
+            4 => cs.truncate(i),
+            5 => {
+                if i + 1 < cs.len() {
+                    cs.swap(i, i + 1);
+                }
+            }
+            _ => {
+                let piece: Vec<char> = soup_piece(rng).chars().collect();
+                for (o, c) in piece.into_iter().enumerate() {
+                    cs.insert(i + o, c);
+                }
+            }
+        }
+    }
+    cs.into_iter().collect()
+}
+
+fn token_class(text: &str, t: &lex::Token) -> &'static str {
+    let first = text.get(t.span.0..).and_then(|s| s.chars().next()).unwrap_or(' ');
+    match t.token_type {
+        TokenType::LeftParen => match first {
+            '(' => "LP",
+            '[' => "LB",
+            _ => "LC",
+        },
+        TokenType::RightParen => match first {
+            ')' => "RP",
+            ']' => "RB",
+            _ => "RC",
+        },
+        TokenType::HashParen => "VEC",
+        TokenType::SingleQuote | TokenType::Quasiquote | TokenType::Unquote => "PFX",
+        TokenType::Dot => "DOT",
+        TokenType::Number => "NUM",
+        TokenType::Symbol | TokenType::True | TokenType::False => "ATOM",
+        TokenType::Char | TokenType::String => "ATOMF",
+        TokenType::NumberPrefix => "NPFX",
+        TokenType::WhiteSpace => "WS",
+    }
+}
+
+fn span_record(id: u64, fam: &str, text: &str) -> Value {
+    let cps: Vec<u32> = text.chars().map(|c| c as u32).collect();
+    let w: Vec<usize> = text.chars().map(|c| c.len_utf8()).collect();
+    let mut rec = json!({"id": id, "fam": fam, "cps": cps, "w": w, "spans": [], "ty": []});
+    match catch_unwind(AssertUnwindSafe(|| lex::scan(text))) {
+        Ok(Ok(toks)) => {
+            rec["scan"] = json!("ok");
+            rec["spans"] = Value::Array(toks.iter().map(|t| json!([t.span.0, t.span.1])).collect());
+            rec["ty"] = Value::Array(toks.iter().map(|t| json!(token_class(text, t))).collect());
+        }
+        Ok(Err(lex::Error::Incomplete)) => rec["scan"] = json!("incomplete"),
+        Ok(Err(e)) => {
+            rec["scan"] = json!("error");
+            rec["msg"] = json!(format!("{}", e));
+        }
+        Err(p) => {
+            rec["scan"] = json!("panic");
+            rec["msg"] = json!(panic_msg(p));
+        }
+    }
+    let (po, _) = run_parse(text);
+    rec["parse"] = json!(po.word());
+    rec["rest"] = match po {
+        PO::Ok(Some(o)) => json!(o),
+        _ => json!(-1),
+    };
+    if let PO::Panic(m) | PO::BadRest(m) = &po {
+        rec["pmsg"] = json!(m);
+    }
+    rec
+}
+
+fn spans(args: &[String]) -> Result<(), String> {
+    let m = kv(args);
+    let seed: u64 = get(&m, "seed", 0);
+    let count: usize = get(&m, "count", 1000);
+    let first: u64 = get(&m, "first", 1);
+    let out = m.get("out").cloned().ok_or("out=<file> required")?;
+    let watch = Watch::start();
+    let mut f = std::io::BufWriter::new(std::fs::File::create(&out).map_err(|e| e.to_string())?);
+    let mut fams: BTreeMap<String, u64> = BTreeMap::new();
+    let mut scans: BTreeMap<String, u64> = BTreeMap::new();
+    let mut parses: BTreeMap<String, u64> = BTreeMap::new();
+    let mut distinct: HashSet<u64> = HashSet::new();
+    let mut nontrivial: HashSet<u64> = HashSet::new();
+    let mut samples: Vec<Value> = vec![];
+    for i in 0..count {
+        let id = first + i as u64;
+        let mut rng = Rng::new(seed.wrapping_mul(1_000_003).wrapping_add(id));
+        let (fam, text) = match rng.weighted(&[25, 30, 25, 20]) {
+            0 => ("unicode", random_unicode(&mut rng)),
+            1 => ("soup", token_soup(&mut rng)),
+            2 => {
+                let base = *rng.pick(PROGRAMS);
+                ("mutant", mutate(&mut rng, base))
+            }
+            _ => {
+                let mut s = String::new();
+                let n = 1 + rng.below(3);
+                for j in 0..n {
+                    if j > 0 {
+                        s.push_str([" ", "\n", ""][rng.below(3)]);
+                    }
+                    nested(&mut rng, 3, &mut s);
+                }
+                let s = if s.chars().count() > 70 { s.chars().take(70).collect() } else { s };
+                ("nested", if rng.chance(1, 2) { mutate(&mut rng, &s) } else { s })
+            }
+        };
+        watch.at(&text);
+        let rec = span_record(id, fam, &text);
+        *fams.entry(fam.to_string()).or_insert(0) += 1;
+        *scans.entry(rec["scan"].as_str().unwrap_or("").to_string()).or_insert(0) += 1;
+        *parses.entry(rec["parse"].as_str().unwrap_or("").to_string()).or_insert(0) += 1;
+        let h = hash64(&text);
+        distinct.insert(h);
+        let ntok = rec["spans"].as_array().map(|a| a.len()).unwrap_or(0);
+        if ntok >= 2 {
+            nontrivial.insert(h);
+        }
+        if samples.len() < 4 && ntok >= 3 && i % 7 == 3 {
+            samples.push(json!({"family": fam, "text": text, "spans": rec["spans"], "kinds": rec["ty"], "parse_text": rec["parse"], "rest": rec["rest"]}));
+        }
+        writeln!(f, "{}", rec).map_err(|e| e.to_string())?;
+    }
+    f.flush().map_err(|e| e.to_string())?;
+    let summary = json!({"texts": count, "distinct_texts": distinct.len(), "distinct_texts_scanned_into_2_or_more_tokens": nontrivial.len(),
+                         "families": fams, "scan_outcomes": scans, "parse_outcomes": parses, "samples": samples});
+    std::fs::write(format!("{}.summary.json", out), serde_json::to_string(&summary).unwrap()).map_err(|e| e.to_string())?;
+    eprintln!("reader spans: {} texts", count);
+    Ok(())
 }
